@@ -225,6 +225,8 @@ class Scenario:
             subid = str(r.choice([1, 2, 9] + ([0] if hostile else [])))
         pkid = cl.next_pkid
         cl.next_pkid = cl.next_pkid % 65535 + 1
+        if getattr(cl, "qos0_only", False):
+            fs = [(p_, 0) for (p_, _q) in fs]
         for p_, _q in fs:
             cl.subs_seen.add(p_)
         self.push(cl, "SUB %d %s %s" % (pkid, subid, ",".join("%s:%d" % (hx(p), q) for p, q in fs)),
@@ -368,6 +370,9 @@ class Scenario:
             self.lazy_ack = True
         for _ in range(1 + r.below(3) + (1 if kind in ("shared", "window", "group") else 0)):
             self._fresh_client(hostile)
+        if kind == "window" and self.clients and r.chance(2, 3):
+            # a slow consumer that never acknowledges anything (QoS 0 only): only Ready can resume it
+            self.clients[0].qos0_only = True
         steps = 0
         while steps < self.size and not self.dead:
             steps += 1
@@ -404,6 +409,8 @@ class Scenario:
             elif act == 4:
                 self.consume(1 + r.below(4))
             elif act == 5:
+                if getattr(cl, "qos0_only", False) and r.chance(4, 5):
+                    continue                      # lets its buffer fill up
                 self.drain(cl)
                 if r.chance(2, 3) and cl.alive and not (self.lazy_ack and r.chance(7, 8)):
                     if cl.to_ack or cl.to_rel:
